@@ -145,7 +145,8 @@ pub fn make_case(class: u64, idx: u64, seed: u64) -> Case {
                 "plain-stack"
             }
         }
-        1 => "plain-stack",
+        1 | 5 => "plain-stack",
+        4 => *r.pick(&["plain-stack", "rdpclient-tls", "global-direct"]),
         _ => "global-direct",
     };
     let mut pdus = Vec::new();
@@ -239,6 +240,82 @@ pub fn make_case(class: u64, idx: u64, seed: u64) -> Case {
             updates.push(Upd::Bitmap(vec![rect(&mut r, 30, 0x77)]));
             pdus.push(Pdu { long: true, sec: 0, updates });
         }
+        4 => {
+            // many elements: one update of very many small rectangles, or one PDU of very many small updates (the byte size
+            // stays within what the framing allows: 0x7fff for a fast-path frame, 0xffff for one update)
+            let framed = path != "global-direct";
+            if idx % 2 == 0 {
+                let n = *r.pick(if framed { &[1023usize, 1024, 1025, 1026, 1100, 1400, 1700][..] } else { &[1024usize, 1025, 1100, 2048, 2049, 3000, 3600][..] });
+                let maxd = if framed { (32000 / n).saturating_sub(18).min(6) } else { (65000 / n).saturating_sub(18).min(6) };
+                let rects = (0..n)
+                    .map(|ri| {
+                        let mut rc = rect(&mut r, maxd, ri as u32);
+                        // no compression header: the byte budget is for the element count
+                        rc.flags = if rc.flags & 1 != 0 { 0x0401 } else { 0 };
+                        rc
+                    })
+                    .collect();
+                pdus.push(Pdu { long: true, sec: 0, updates: vec![Upd::Bitmap(rects)] });
+            } else {
+                let bitmaps = r.chance(1, 2);
+                let n = if bitmaps { *r.pick(&[1024usize, 1025, 1026, 1100, 1250]) } else { *r.pick(&[1025usize, 2000, 5000, 10000]) };
+                let mut updates = Vec::new();
+                for ui in 0..n {
+                    if bitmaps {
+                        let mut rc = rect(&mut r, 0, ui as u32);
+                        rc.data.clear();
+                        rc.flags = if rc.flags & 1 != 0 { 0x0401 } else { 0 };
+                        updates.push(Upd::Bitmap(vec![rc]));
+                    } else if ui % 500 == 499 {
+                        updates.push(Upd::Bitmap(vec![rect(&mut r, 4, ui as u32)]));
+                    } else {
+                        updates.push(Upd::Other { code: *r.pick(&[3u8, 5, 6]), data: vec![], name: "empty-update" });
+                    }
+                }
+                pdus.push(Pdu { long: true, sec: 0, updates });
+            }
+            // the generator's own bound: what it built must fit the framing, or the case would test the builder
+            let limit = if framed { 32760 } else { 65530 };
+            loop {
+                let size = pdu_updates(&pdus[0]).len();
+                if size <= limit {
+                    break;
+                }
+                let ups = &mut pdus[0].updates;
+                if ups.len() > 1 {
+                    ups.pop();
+                } else if let Some(Upd::Bitmap(rs)) = ups.last_mut() {
+                    rs.pop();
+                }
+            }
+            pdus.push(Pdu { long: false, sec: 0, updates: vec![Upd::Bitmap(vec![rect(&mut r, 20, 0xAA55)])] });
+        }
+        5 => {
+            // interrupted reads: ordinary sequences over a transport whose read calls are interrupted now and then
+            // (EINTR: no data transferred, the call is to be repeated) and that delivers in small segments
+            let np = r.range(1, 8) as usize;
+            for pi in 0..np {
+                let nu = r.range(1, 4) as usize;
+                let updates = (0..nu)
+                    .map(|ui| {
+                        if r.chance(1, 4) {
+                            other_update(&mut r)
+                        } else {
+                            let nr = r.range(1, 4) as usize;
+                            Upd::Bitmap(
+                                (0..nr)
+                                    .map(|ri| {
+                                        let maxd = if r.chance(1, 6) { 3000 } else { 200 };
+                                        rect(&mut r, maxd, (pi as u32) << 16 | (ui as u32) << 8 | ri as u32)
+                                    })
+                                    .collect(),
+                            )
+                        }
+                    })
+                    .collect();
+                pdus.push(Pdu { long: r.chance(3, 4), sec: 0, updates });
+            }
+        }
         _ => {
             // zero-length corner: empty rectangles / empty updates followed by more
             let np = r.range(1, 4) as usize;
@@ -273,7 +350,7 @@ pub fn make_case(class: u64, idx: u64, seed: u64) -> Case {
             p.long = true;
         }
     }
-    Case { path, pdus, class: ["mixed-sequences", "total-length-sweep", "global-direct-large", "zero-length-corners"][class as usize], gen: [class, idx, seed] }
+    Case { path, pdus, class: ["mixed-sequences", "total-length-sweep", "global-direct-large", "zero-length-corners", "many-elements", "interrupted-reads"][class as usize], gen: [class, idx, seed] }
 }
 
 fn describe(c: &Case) -> Value {
@@ -327,6 +404,14 @@ pub fn check_case(c: &Case, rep: &mut Report) {
     };
     let mut viol: Vec<(String, String)> = Vec::new();
     let mut nrects = 0usize;
+    if c.class == "interrupted-reads" {
+        let mut r = Rng::derive(c.gen[2], "C10-eintr", c.gen[0], c.gen[1]);
+        let (start, period, chunk) = (r.below(6) as usize, r.range(2, 7) as usize, *r.pick(&[usize::MAX, usize::MAX, 1, 2, 3, 7, 64, 1000]));
+        s.server.with(|x| {
+            x.interrupt_reads = Some((start, period));
+            x.read_chunk = chunk;
+        });
+    }
     // one case in three: the server sends all its PDUs in one burst before the application reads the first one (what is
     // queued behind a PDU must not leak into it)
     let burst = c.path != "global-direct" && c.gen[1] % 3 == 0;
@@ -409,6 +494,9 @@ pub fn check_case(c: &Case, rep: &mut Report) {
     }
     rep.count("rectangles_checked", nrects as u64);
     rep.count("pdus", c.pdus.len() as u64);
+    if c.class == "interrupted-reads" {
+        rep.count("read_calls_interrupted", s.server.with(|x| x.interrupted) as u64);
+    }
     if nrects > 0 {
         rep.nontrivial(fnv(desc.to_string().as_bytes()));
     }
@@ -426,7 +514,7 @@ pub fn run(cfg: &Cfg) -> Report {
     crate::tls::prewarm(false);
     let seed = cfg.seed;
     let mut total = Report::new();
-    let plan: Vec<(u64, u64)> = vec![(0, cfg.n(20_000, 1_000_000)), (1, if cfg.quick() { 3000 } else { 32766 }), (2, cfg.n(600, 20_000)), (3, cfg.n(10_000, 300_000))];
+    let plan: Vec<(u64, u64)> = vec![(0, cfg.n(20_000, 1_000_000)), (1, if cfg.quick() { 3000 } else { 32766 }), (2, cfg.n(600, 20_000)), (3, cfg.n(10_000, 300_000)), (4, cfg.n(160, 4_000)), (5, cfg.n(3_000, 200_000))];
     for (class, n) in plan {
         if !cfg.wants(class) {
             continue;
